@@ -9,6 +9,7 @@ each disjoined with "gPartial = true" (the ghost misuse flag is absorbing), so t
 every script operation, `processCommand`, `parseLoop` and `parse` are plain implications.
 -/
 import ScpiVerif.Model.Ctx
+import ScpiVerif.Lemmas.Builtin
 import ScpiVerif.Spec.Message
 import ScpiVerif.Lemmas.IntFmt
 
@@ -412,9 +413,125 @@ theorem paramArrInt_go_out (w : Nat) (s : Bool) : ∀ (n : Nat) (c : Ctx) (m : B
   repeat' split
   all_goals simp [h]
 
+@[simp] theorem writeDelimiter_gItems (o : Out) : (writeDelimiter o).gItems = o.gItems := by
+  rw [writeDelimiter_eq]
+@[simp] theorem writeDelimiter_gCur (o : Out) : (writeDelimiter o).gCur = o.gCur := by
+  rw [writeDelimiter_eq]
+
+/-! ### SCPI_ResultError (reached from handler scripts through the library's SYSTem:ERRor[:NEXT]? handler) -/
+
+theorem errPartLoop_ind (P : Out → Prop) (hP : ∀ o d, P o → P (writeData o d)) :
+    ∀ (fuel : Nat) (o : Out) (d : Bytes) (len lim : Nat), P o → P (errPartLoop fuel o d len lim).1 := by
+  intro fuel
+  induction fuel with
+  | zero => intro o d len lim h; exact h
+  | succ fuel ih =>
+    intro o d len lim h
+    unfold errPartLoop
+    split
+    · exact h
+    · dsimp only
+      split
+      · exact h
+      · exact ih _ _ _ _ (hP _ _ (hP _ _ h))
+
+theorem errParts_ind (P : Out → Prop) (hP : ∀ o d, P o → P (writeData o d)) :
+    ∀ (ps : List (Option Bytes)) (i : Nat) (o : Out) (lim : Nat), P o → P (errParts i ps o lim) := by
+  intro ps
+  induction ps with
+  | nil => intro i o lim h; unfold errParts; exact h
+  | cons p ps ih =>
+    intro i o lim h
+    unfold errParts
+    split
+    · exact h
+    · split
+      · exact h
+      · dsimp only
+        apply ih
+        apply hP
+        apply errPartLoop_ind P hP
+        split
+        · dsimp only
+          split
+          · exact hP _ _ h
+          · exact h
+        · exact h
+
+/-- closing a ghost item without counting it, when the unit already has a finished item -/
+theorem closeGhost_st {o : Out} (hs : St pre U f F true o) (hi : o.gPartial = true ∨ o.gItems ≠ []) :
+    OSt pre U f F { o with gItems := o.gItems ++ [o.gCur], gCur := [] } := by
+  apply St.of_closed
+  rcases hs with hp | hs
+  · exact Or.inl hp
+  rcases hi with hp | hi
+  · exact Or.inl hp
+  right
+  simp only [if_true] at hs
+  simp only [Bool.false_eq_true, if_false]
+  obtain ⟨hu, hf, hfl, hnn, hpos, hwr⟩ := hs
+  have h0 := hpos.2 hi
+  refine ⟨hu, hf, hfl, rfl, ?_, ?_, ?_⟩
+  · simp [h0]
+  · simp; omega
+  · simp only [hwr, joinSep_snoc]
+    simp [hi]
+
+theorem resultError_st {o : Out} (code : Int) (desc : Bytes) (parts : List (Option Bytes))
+    (h : OSt pre U f F o) : OSt pre U f F (resultError o code desc parts) := by
+  unfold resultError
+  dsimp only
+  -- after the integer item and the delimiter: open, with a finished item
+  let P : Out → Prop := fun o => St pre U f F true o ∧ (o.gPartial = true ∨ o.gItems ≠ [])
+  have hP : ∀ o d, P o → P (writeData o d) := fun o d h => ⟨writeData_st d h.1, h.2⟩
+  have h0 : P (writeDelimiter (resultIntBaseSign o 32
+      (if code < 0 then (2^32 - code.natAbs) else code.toNat) 10 true)) := by
+    refine ⟨writeDelimiter_st (resultIntBaseSign_st _ _ _ _ h), Or.inr ?_⟩
+    simp [resultIntBaseSign, bump]
+  have h1 := hP _ [34] (errParts_ind P hP (some desc :: parts) 0 _
+    Gen.SCPI_STD_ERROR_DESC_MAX_STRING_LENGTH.toNat (hP _ [34] h0))
+  exact closeGhost_st h1.1 h1.2
+
 /-! ### handler scripts -/
 
 theorem OSt.of_eq {o o' : Out} (h : OSt pre U f F o) (e : o' = o) : OSt pre U f F o' := e ▸ h
+
+/-! ### the library's own handlers -/
+
+theorem bOut_st {o : Out} (r : Regs.St) (q : Fifo.EQ) (b : Builtin) (h : OSt pre U f F o) :
+    OSt pre U f F (Lemmas.Builtin.bOut r q b o) := by
+  cases b
+  case idnQ fields =>
+    show OSt pre U f F ((List.range 4).foldl (fun o i => resultCharacters o (idnField fields i)) o)
+    have : ∀ (l : List Nat) (o : Out), OSt pre U f F o →
+        OSt pre U f F (l.foldl (fun o i => resultCharacters o (idnField fields i)) o) := by
+      intro l
+      induction l with
+      | nil => intro o h; exact h
+      | cons a l ih => intro o h; exact ih _ (resultCharacters_st _ h)
+    exact this _ _ h
+  case errNextQ => exact resultError_st _ _ _ h
+  case versQ => exact resultCharacters_st _ h
+  case eseQ | esrQ | opcQ | sreQ | stbQ | tstQ | stubQ | errCountQ | quesCondQ | quesEvenQ | quesEnabQ
+      | operCondQ | operEvenQ | operEnabQ => exact resultIntBaseSign_st _ _ _ _ h
+  all_goals exact h
+
+@[simp] theorem regFromParam_out (c : Ctx) (reg : Nat) : (regFromParam c reg).1.out = c.out := by
+  rw [Lemmas.Builtin.regFromParam_eq]
+  have h := paramInt_out c 32 true true
+  dsimp only
+  split
+  · exact h
+  · exact h
+
+theorem runBuiltin_st (c : Ctx) (b : Builtin) (hs : OSt pre U f F c.out) :
+    OSt pre U f F (runBuiltin c b).1.out := by
+  cases hp : Lemmas.Builtin.paramReg b with
+  | none => rw [Lemmas.Builtin.runBuiltin_pure c b hp]; exact bOut_st _ _ _ hs
+  | some p =>
+    obtain ⟨reg, strict⟩ := p
+    rw [Lemmas.Builtin.runBuiltin_param c b reg strict hp]
+    exact hs.of_eq (by simp)
 
 theorem runOp_st (h : HState) (op : SOp) (hs : OSt pre U f F h.c.out) :
     OSt pre U f F (runOp h op).c.out := by
@@ -485,6 +602,11 @@ theorem runOp_st (h : HState) (op : SOp) (hs : OSt pre U f F h.c.out) :
       · exact hs
     | onFail s => exact hs
     | ret ok => exact hs
+    | builtin b =>
+      dsimp only
+      split
+      · exact runBuiltin_st h.c b hs
+      · exact runBuiltin_st h.c b hs
 
 theorem runScript_st (c : Ctx) (s : List SOp) (hs : OSt pre U f F c.out) :
     OSt pre U f F (runScript c s).1.out := by
@@ -733,11 +855,6 @@ theorem silent_message (c : Ctx) (base len : Nat) :
 
 /-! ### the ghost items are the independent encodings -/
 
-@[simp] theorem writeDelimiter_gItems (o : Out) : (writeDelimiter o).gItems = o.gItems := by
-  rw [writeDelimiter_eq]
-@[simp] theorem writeDelimiter_gCur (o : Out) : (writeDelimiter o).gCur = o.gCur := by
-  rw [writeDelimiter_eq]
-
 theorem basePrefix_eq (base : Int) :
     basePrefix base =
       (if base = 2 then Spec.Message.bytesOf "#B" else if base = 8 then Spec.Message.bytesOf "#Q"
@@ -841,82 +958,5 @@ theorem resultBlockData_real (o : Out) (d : Bytes) :
   by_cases h1 : o.arbRemaining < d.length
   · simp [h1]
   · by_cases h2 : o.arbRemaining - d.length = 0 <;> simp [h1, h2, writeData, bump]
-
-/-! ### SCPI_ResultError (not reachable from handler scripts; kept for completeness)
-
-Its second item (the quoted string) is closed without incrementing output_count; the invariant
-survives because the integer before it already made output_count positive. -/
-
-theorem errPartLoop_ind (P : Out → Prop) (hP : ∀ o d, P o → P (writeData o d)) :
-    ∀ (fuel : Nat) (o : Out) (d : Bytes) (len lim : Nat), P o → P (errPartLoop fuel o d len lim).1 := by
-  intro fuel
-  induction fuel with
-  | zero => intro o d len lim h; exact h
-  | succ fuel ih =>
-    intro o d len lim h
-    unfold errPartLoop
-    split
-    · exact h
-    · dsimp only
-      split
-      · exact h
-      · exact ih _ _ _ _ (hP _ _ (hP _ _ h))
-
-theorem errParts_ind (P : Out → Prop) (hP : ∀ o d, P o → P (writeData o d)) :
-    ∀ (ps : List (Option Bytes)) (i : Nat) (o : Out) (lim : Nat), P o → P (errParts i ps o lim) := by
-  intro ps
-  induction ps with
-  | nil => intro i o lim h; unfold errParts; exact h
-  | cons p ps ih =>
-    intro i o lim h
-    unfold errParts
-    split
-    · exact h
-    · split
-      · exact h
-      · dsimp only
-        apply ih
-        apply hP
-        apply errPartLoop_ind P hP
-        split
-        · dsimp only
-          split
-          · exact hP _ _ h
-          · exact h
-        · exact h
-
-/-- closing a ghost item without counting it, when the unit already has a finished item -/
-theorem closeGhost_st {o : Out} (hs : St pre U f F true o) (hi : o.gPartial = true ∨ o.gItems ≠ []) :
-    OSt pre U f F { o with gItems := o.gItems ++ [o.gCur], gCur := [] } := by
-  apply St.of_closed
-  rcases hs with hp | hs
-  · exact Or.inl hp
-  rcases hi with hp | hi
-  · exact Or.inl hp
-  right
-  simp only [if_true] at hs
-  simp only [Bool.false_eq_true, if_false]
-  obtain ⟨hu, hf, hfl, hnn, hpos, hwr⟩ := hs
-  have h0 := hpos.2 hi
-  refine ⟨hu, hf, hfl, rfl, ?_, ?_, ?_⟩
-  · simp [h0]
-  · simp; omega
-  · simp only [hwr, joinSep_snoc]
-    simp [hi]
-
-theorem resultError_st {o : Out} (code : Int) (desc : Bytes) (parts : List (Option Bytes))
-    (h : OSt pre U f F o) : OSt pre U f F (resultError o code desc parts) := by
-  unfold resultError
-  dsimp only
-  -- after the integer item and the delimiter: open, with a finished item
-  let P : Out → Prop := fun o => St pre U f F true o ∧ (o.gPartial = true ∨ o.gItems ≠ [])
-  have hP : ∀ o d, P o → P (writeData o d) := fun o d h => ⟨writeData_st d h.1, h.2⟩
-  have h0 : P (writeDelimiter (resultIntBaseSign o 32
-      (if code < 0 then (2^32 - code.natAbs) else code.toNat) 10 true)) := by
-    refine ⟨writeDelimiter_st (resultIntBaseSign_st _ _ _ _ h), Or.inr ?_⟩
-    simp [resultIntBaseSign, bump]
-  have h1 := hP _ [34] (errParts_ind P hP (some desc :: parts) 0 _
-    Gen.SCPI_STD_ERROR_DESC_MAX_STRING_LENGTH.toNat (hP _ [34] h0))
-  exact closeGhost_st h1.1 h1.2
 
 end ScpiVerif.Lemmas.Framing
